@@ -751,7 +751,6 @@ func c15Canaries(r *core.Run) {
 	r.Canary("status overwritten after partial write", recVerdict(d, recObs{status: 500, body: "<html>MK654321Z"}) != "")
 }
 
-
 //go:noinline
 func c15RaiseInAFunctionWhoseNameIsLongerThanAnyColumnAStackPrinterWouldReserveForIt(marker string) {
 	panic(marker)
